@@ -11,6 +11,9 @@ EXTRA = {
     "C17-c": [], "C17-d": ["C06", "C07"], "C18-c": [], "C18-d": ["C16"], "C19-c": [], "C19-d": ["C08"], "C20-c": [], "C20-d": [],
     "C06-e": ["C03"], "C06-f": ["C09"], "C13-e": ["C06"], "C13-f": ["C06"], "C15-e": ["C06"], "C15-f": ["C02", "C13"], "C17-e": ["C06"], "C17-f": ["C19"],
     "C02-e": ["C07"], "C02-f": ["C16", "C08"], "C10-e": ["C06", "C08"], "C10-f": ["C15", "C13"], "C16-e": [], "C16-f": [], "C19-e": ["C04"], "C19-f": [],
+    "C01-g": ["C07", "C15"], "C01-h": ["C15"], "C03-g": ["C06", "C17"], "C03-h": ["C02", "C07"], "C03-i": ["C08", "C01"], "C04-g": ["C06"], "C04-h": ["C05"],
+    "C05-g": ["C01"], "C05-h": ["C06"], "C07-g": ["C06"], "C07-h": ["C15"], "C09-g": ["C06"], "C09-h": ["C06"], "C11-g": ["C08"], "C11-h": ["C08", "C16"],
+    "C12-g": ["C11"], "C12-h": ["C10"], "C14-g": ["C13"], "C14-h": [], "C20-g": [], "C20-h": [],
     "R1": ["C01", "C05", "C08"], "R2": [], "R3": ["C06"], "R4": ["C06"],  # additional checks worth running per seed (besides the seed's own property)
     "C01-a": ["C04", "C05"], "C01-b": ["C02", "C07"], "C02-a": ["C07"], "C02-b": ["C08", "C19"], "C03-a": ["C15"], "C03-b": ["C06"],
     "C04-b": ["C06"], "C05-a": ["C06"], "C05-b": ["C06", "C09"], "C06-a": ["C04"], "C06-b": [], "C07-a": ["C02"], "C07-b": ["C06"],
